@@ -163,6 +163,29 @@ func (r *Recorder) replayFile(path string, replay ReplayFunc) int {
 	if len(c) == 0 {
 		c = rf.Witness
 	}
+	var sigDoc struct {
+		Sig string `json:"sig"`
+	}
+	json.Unmarshal(b, &sigDoc)
+	if strings.HasSuffix(sigDoc.Sig, "/process-crash") {
+		// the saved case is {src, modules}: run it; a Go fatal error kills this process
+		// again, which the driver reports as a reproduction
+		var cc struct {
+			Src     string            `json:"src"`
+			Modules map[string]string `json:"modules"`
+		}
+		if err := json.Unmarshal(c, &cc); err != nil {
+			fmt.Println("replay: bad crash case", err)
+			return 2
+		}
+		o := Run(cc.Src, Opts{Modules: cc.Modules})
+		if o.Kind == KPanic || o.Kind == KBudget {
+			fmt.Printf("REPLAY-FAIL property=%s sig=%s\n  %s\n", r.Property, sigDoc.Sig, o.Short())
+			return 1
+		}
+		fmt.Printf("REPLAY property=%s: the case no longer crashes the process (%s)\n", r.Property, o.Short())
+		return 0
+	}
 	fails, err := replay(rf.Sub, c)
 	if err != nil {
 		fmt.Println("replay: error:", err)
